@@ -24,6 +24,7 @@ var props = []Prop{
 			{Harness: "reporting.ZZC19K2Unreadable", Desc: "ReadFile error degrades to no excerpt", Bounds: map[string]interface{}{"diagnostic_line": "any int"}},
 			{Harness: "reporting.ZZC19K3Small", Desc: "ReportViolation end to end: arbitrary file content (<=7 bytes, <=2 lines, tabs), any existing diagnostic line, any column 1..len+1, 3-byte message, 2 codes: the whole rendered message equals header + numbered window + caret row repeating the line's tabs + help link",
 				Bounds: map[string]interface{}{"content_bytes": 7, "lines": "<=2", "tabs": "<=2", "msg_bytes": 3}},
+			{Harness: "reporting.ZZC19History", Desc: "history independence: one Reporter renders two diagnostics on the same 500-byte line (11 columns covering the three truncation regimes and their boundaries, second diagnostic on that line or on its neighbour): the second message equals what a fresh Reporter renders", Bounds: map[string]interface{}{"columns": "11 x 11", "second_line": "2..3"}},
 			{Harness: "reporting.ZZC19K4", Tier: "thorough", Desc: "composition on a line longer than the display limit (256 bytes, 6 of them arbitrary), any column: the rendered excerpt and caret row equal truncateString / calculateDisplayColumn of the ORIGINAL line and column", Bounds: map[string]interface{}{"line_bytes": "250..256", "column": "1..len+1"},
 				Setup: func(ex *eng.Explorer, tier string) { ex.MaxDecisions = 2000 }},
 			{Harness: "reporting.ZZC19K3", Tier: "thorough", Desc: "the same with <=10 bytes, <=3 lines, 6 codes", Bounds: map[string]interface{}{"content_bytes": 10, "lines": "<=3", "tabs": "<=2", "msg_bytes": 3}},
@@ -170,9 +171,10 @@ func init() {
 		Prop{
 			ID: "C07",
 			Runs: []Run{
-				{Harness: "zzverif/zzh.ZZC07Scopes", Desc: "10 placements of an @ignore comment (before package clause, alone before func / type declaration, alone before a multi-line statement, alone before a struct field, alone before a local var declaration, trailing a statement, trailing an if-header, last in a body, trailing a struct field), any <= 2 of them active; query = ANY byte position of the file x 7 codes: Contains == documented extent", Bounds: map[string]interface{}{"skeleton": "c07Src", "placements": 10, "active_markers": "<= 2", "query_position": "every offset 0..len+2 (symbolic)"}},
+				{Harness: "zzverif/zzh.ZZC07Scopes", Desc: "10 placements of an @ignore comment (before package clause, alone before func / type declaration, alone before a multi-line statement, alone before a struct field, alone before a local var declaration, trailing a statement, trailing an if-header, last in a body, trailing a struct field), any <= 2 of them active; query = ANY byte position of the file x 7 codes: Contains == documented extent", Bounds: map[string]interface{}{"skeleton": "c07Src", "placements": 11, "active_markers": "<= 2", "query_position": "every offset 0..len+2 (symbolic)"}},
 				{Harness: "zzverif/zzh.ZZC07Spellings", Desc: "declaration placement with 9 code-list spellings (single, several + prose, category, ALL lower-case, unknown + trailing comma, other category, near-miss keywords)", Bounds: map[string]interface{}{"spellings": 9}},
 				{Harness: "zzverif/zzh.ZZC07SpellingsStmt", Desc: "statement placement with the 9 spellings", Bounds: map[string]interface{}{"spellings": 9}},
+				{Harness: "zzverif/zzh.ZZC07RereportField", Desc: "re-reporting when the first uses of the once-per-file type are a struct field and a parameter (trailing markers, 4x3 spellings)", Bounds: map[string]interface{}{"holes": 2}},
 				{Harness: "zzverif/zzh.ZZC07Rereport", Desc: "report-time filter (IMM) and detection-time filter with once-per-file re-reporting (TONL01, PKGO01 move to the next unsuppressed use of 3), trailing and stand-alone markers, 5x4x4x4 marker spellings", Bounds: map[string]interface{}{"skeleton": "c07SrcRD + c07SrcRU", "holes": 4}},
 			},
 			Outside:     []string{"more than two markers in one file at a time (placement harness)", "block comments /* @ignore */", "markers inside excluded files (C14)"},
